@@ -1,5 +1,6 @@
 import ChipFiring.Theory.EwdFull
 import ChipFiring.Theory.Potential
+import ChipFiring.Theory.GoodOf
 import ChipFiring.Model.Algos
 /-
   C01 — Winnability verdicts are exact.
@@ -85,6 +86,16 @@ theorem isWinnable_exact (G : Graph n) (hG : G.WF) (hc : G.Connected) (fuel : Na
       simp only [he, Option.map_some, Except.map] at h
       injection h with h; injection h with h; subst h
       exact ewd_optimized_verdict_exact G hG hc _ fuel Dv r htot hcover he
+
+/-- Headline form: for every connected well-formed multigraph, every divisor, both modes, every
+    adjacency order and every fuel: whenever EWD returns, the verdict is `true` exactly when some
+    effective divisor is linearly equivalent to the input. -/
+theorem verdict_exact (G : Graph n) (hG : G.WF) (hc : G.Connected) (hint : Fin n → List (Fin n)) (fuel : Nat)
+    (Dv : Divisor n) (htot : Dv.total = deg Dv.deg) (opt : Bool) (r : EwdOut n)
+    (h : ewd G hint fuel Dv opt = some (.ok r)) : r.verdict = true ↔ Winnable G Dv.deg := by
+  cases opt with
+  | false => exact ewd_plain_verdict_exact G hG.symm hint fuel Dv r (cover_of_connected G hG hc hint) h
+  | true => exact ewd_optimized_verdict_exact G hG hc hint fuel Dv r htot (cover_of_connected G hG hc hint) h
 
 /-- the recorded trace is not an input of the result: the verdict, divisor and orientation are
     computed by the same function whether or not recording is on (recording is modelled as the
